@@ -351,6 +351,19 @@ func cmdCryptoLog(args []string) int {
 			emit(map[string]any{"fn": "Verify", "secret": hx(s), "k": k2, "C": ptHex(C1), "out": boolStr(crypto.Verify(s, priv(k2), C1)), "want": "false"})
 			emit(map[string]any{"fn": "Verify", "secret": hx(s + "x"), "k": k, "C": ptHex(C1), "out": boolStr(crypto.Verify(s+"x", priv(k), C1)), "want": "false"})
 			emit(map[string]any{"fn": "Verify", "secret": hx(s), "k": k, "C": ptHex(B1), "out": boolStr(crypto.Verify(s, priv(k), B1)), "want": "false"})
+			// points related to the genuine one: its mirror image -C (same x, other parity byte), C + G, 2C
+			neg := []byte(ptHex(C1))
+			neg[1] ^= 1 // "02" <-> "03"
+			var cj, gj, sum, dbl secp256k1.JacobianPoint
+			C1.AsJacobian(&cj)
+			secp256k1.NewPrivateKey(new(secp256k1.ModNScalar).SetInt(1)).PubKey().AsJacobian(&gj)
+			secp256k1.AddNonConst(&cj, &gj, &sum)
+			secp256k1.DoubleNonConst(&cj, &dbl)
+			sum.ToAffine()
+			dbl.ToAffine()
+			for _, rel := range []*secp256k1.PublicKey{parsePt(string(neg)), secp256k1.NewPublicKey(&sum.X, &sum.Y), secp256k1.NewPublicKey(&dbl.X, &dbl.Y)} {
+				emit(map[string]any{"fn": "Verify", "secret": hx(s), "k": k, "C": ptHex(rel), "out": boolStr(crypto.Verify(s, priv(k), rel)), "want": "false"})
+			}
 			// DLEQ made by the library for this key
 			e, sg := crypto.GenerateDLEQ(priv(k), B1, C1_)
 			eh, sh := hex.EncodeToString(e.Serialize()), hex.EncodeToString(sg.Serialize())
